@@ -79,3 +79,48 @@ Example sig_without_keystone_rejected :
   run Ht (init b0) [ELockIn (1,0) (Ht 7) 101000 100000 2; ECirc (1,0) (AFwd FAdd);
                     ECirc (1,0) (AOutAdd (2,0)); ESig 2] = None.
 Proof. vm_compute. reflexivity. Qed.
+
+(* ---- single-link restarts (peer disconnect / reconnect): the switch, circuit
+   map and mailboxes survive.  Circuit (1,0): its unsigned outgoing add is lost
+   with the restart of link 2 (keystone trimmed), re-delivered by the mailbox
+   and added again under the same HTLC id; after the downstream settle the
+   unsigned upstream settle is lost with the restart of link 1 and applied
+   again from the mailbox; the retransmitted update_fulfill is idempotent. *)
+Definition evs_link : list event := [
+  ELockIn (1,0) (Ht 7) 101000 100000 2;
+  ECirc (1,0) (AFwd FAdd); ECirc (1,0) (AOutAdd (2,0)); ECirc (1,0) (AOpen (2,0));
+  ELinkRestart 2;
+  ECirc (1,0) (AOutAdd (2,0)); ECirc (1,0) (AOpen (2,0)); ESig 2;
+  ELinkRestart 1; ECirc (1,0) (AFwd FDrop);
+  ECirc (1,0) (AOutSettle (2,0) 7); ECirc (1,0) (AClose (2,0));
+  ECirc (1,0) (AInSettle 7);
+  ELinkRestart 1;
+  ELinkRestart 2; ECirc (1,0) (AOutSettle (2,0) 7);
+  ECirc (1,0) (AInSettle 7); ESig 1
+].
+
+Example link_restarts_accepted_quiescent_balanced :
+  match run Ht (init b0) evs_link with
+  | Some st => (quiescent st, fees_earned st, bal st 1, bal st 2)
+  | None => (false, 0%Z, 0%Z, 0%Z)
+  end = (true, 1000%Z, 5101000%Z, 2900000%Z).
+Proof. vm_compute. reflexivity. Qed.
+
+(* after the restart of the outgoing link the lost add is really gone: a
+   signature cannot commit it before it has been added again *)
+Example lost_add_not_committed :
+  match run Ht (init b0) [ELockIn (1,0) (Ht 7) 101000 100000 2; ECirc (1,0) (AFwd FAdd);
+                          ECirc (1,0) (AOutAdd (2,0)); ECirc (1,0) (AOpen (2,0));
+                          ELinkRestart 2; ESig 2] with
+  | Some st => map os (circs st)
+  | None => []
+  end = [ONone].
+Proof. vm_compute. reflexivity. Qed.
+
+(* ... and a retransmitted update_fulfill with a DIFFERENT preimage is refused *)
+Example other_preimage_on_retransmit_rejected :
+  run Ht (init b0) [ELockIn (1,0) (Ht 7) 101000 100000 2; ECirc (1,0) (AFwd FAdd);
+                    ECirc (1,0) (AOutAdd (2,0)); ECirc (1,0) (AOpen (2,0)); ESig 2;
+                    ECirc (1,0) (AOutSettle (2,0) 7); ELinkRestart 2;
+                    ECirc (1,0) (AOutSettle (2,0) 8)] = None.
+Proof. vm_compute. reflexivity. Qed.
